@@ -10,6 +10,10 @@ Driver for C14.
      op    `L<id>:<ts>:<key|->:<v>` `R…` `X…` (event on the left / right / an unrelated stream)
            `Wl<int>` `Wr<int>` `Wx<int>` (watermark; the letter is the stream named in manager mode)
   obs  := `nocalls` | call;call;…   call := `-` | `lid:rid,lid:rid,…` (sorted)
+  multi-join manager case := `J <join+join+...> <op,op,...>`
+     join  `<l><r>:<durMs>:<cond>`   l, r = stream letters a..e (l ≠ r); registration order = list order
+     op    `A<id>:<ts>:<key|->:<v>` .. `E…` (event whose source is stream a..e), `Wa<int>` .. `We<int>`
+  obs  := `nocalls` | call;call;…   call := batch/batch/… (one per registered join, registration order)
   drv_c14 model  : case       ↦ obs predicted by the model
   drv_c14 oracle : case | obs ↦ `ok <tags>` / `fail <clause>@<call>`
 -/
@@ -88,7 +92,67 @@ def parseCall (s : String) : Option (List (Nat × Nat)) :=
 def parseObs (s : String) : Option (List (List (Nat × Nat))) :=
   if s = "nocalls" then some [] else (s.splitOn ";").mapM parseCall
 
+/-! multi-join manager cases -/
+
+structure JCase where
+  js : List JoinDef
+  conds : List Nat
+  ms : List JOp
+
+def streamOf (c : Char) : Option Nat :=
+  if 'a' ≤ c ∧ c ≤ 'e' then some (c.toNat - 'a'.toNat)
+  else if 'A' ≤ c ∧ c ≤ 'E' then some (c.toNat - 'A'.toNat) else none
+
+def parseJoin (s : String) : Option (JoinDef × Nat) :=
+  match s.splitOn ":" with
+  | [lr, d, c] =>
+    match lr.toList with
+    | [a, b] => do
+      let l ← if 'a' ≤ a ∧ a ≤ 'e' then streamOf a else none
+      let r ← if 'a' ≤ b ∧ b ≤ 'e' then streamOf b else none
+      if l = r then none
+      let d ← d.toNat?
+      let c ← c.toNat?
+      pure ({ l := l, r := r, P := { W := windowSecs d, cond := condOf c } }, c)
+    | _ => none
+  | _ => none
+
+def parseJOp (s : String) : Option JOp :=
+  let c := s.front
+  if c = 'W' then do
+    let st ← (fun ch => if 'a' ≤ ch ∧ ch ≤ 'e' then streamOf ch else none) ((s.drop 1).toString.front)
+    let w ← (s.drop 2).toString.toInt?
+    pure (.wm st w)
+  else if 'A' ≤ c ∧ c ≤ 'E' then do
+    let st ← streamOf c
+    let e ← parseEv (s.drop 1).toString
+    pure (.ev st e)
+  else none
+
+def parseJCase (line : String) : Option JCase :=
+  match tokens line with
+  | ["J", joins, ops] => do
+    let jc ← (joins.splitOn "+").mapM parseJoin
+    let ms ← if ops = "-" then some [] else (ops.splitOn ",").mapM parseJOp
+    pure { js := jc.map (·.1), conds := jc.map (·.2), ms := ms }
+  | _ => none
+
+def showRow (row : List (List (Nat × Nat))) : String := "/".intercalate (row.map showCall)
+
+def showJObs (os : List (List (List (Nat × Nat)))) : String :=
+  if os.isEmpty then "nocalls" else ";".intercalate (os.map showRow)
+
+def parseJObs (s : String) : Option (List (List (List (Nat × Nat)))) :=
+  if s = "nocalls" then some [] else (s.splitOn ";").mapM (fun row => (row.splitOn "/").mapM parseCall)
+
+def isJ (line : String) : Bool := (tokens line).head? == some "J"
+
 def modelLine (line : String) : String :=
+  if isJ line then
+    match parseJCase line with
+    | some c => showJObs (multiObsTrace c.js c.ms)
+    | none => "bad-case"
+  else
   match parseCase line with
   | some c => showObs (mgrObsTrace c.P c.mops)
   | none => "bad-case"
@@ -103,7 +167,11 @@ def firstBad (P : Params) (ops : List Op) (obs : List (List (Nat × Nat))) : Str
     if !prefixSubset P pre o then s!"not-in-reference@{n}"
     else if !prefixNodup o then s!"duplicate@{n}"
     else s!"missing@{n}"
-  | none => "runOk"
+  | none =>
+    -- per-call clause: first call that does not return what it owes
+    match (List.range (ops.length + 1)).find? (fun n => !owedFrom P init [] [] (ops.take n) (obs.take n)) with
+    | some n => s!"missing@{n}"
+    | none => "runOk"
 
 def evOf : MOp → List Ev
   | .ev _ e => [e]
@@ -128,11 +196,67 @@ def tagsOf (c : Case) (ops : List Op) (obs : List (List (Nat × Nat))) : List St
   ++ (if cross.any (fun p => sameKey p.1 p.2 && !closeEnough P.W p.1 p.2) then ["window-filtered"] else [])
   ++ (if cross.any (fun p => !sameKey p.1 p.2) then ["key-filtered"] else [])
   ++ (if c.ops.any (fun m => (route m).isNone) then ["unrouted"] else [])
+  ++ (if evs.any (fun e => e.ts ≥ 9007199254740992) then ["ts>=2^53"]
+      else if evs.any (fun e => e.ts ≥ 16777216) then ["ts>=2^24"] else [])
+  ++ (if ls.length ≥ 5 || rs.length ≥ 5 then ["side>=5"] else [])
+  ++ (if keys.any (fun k => (ls.filter (·.key == some k)).length ≥ 5 || (rs.filter (·.key == some k)).length ≥ 5)
+      then ["same-key>=5"] else [])
+  ++ (let fin := final P init ops
+      let held := ((fin.lbuf ++ fin.rbuf).map (·.2.length)).sum
+      if held < (evs.filter (·.key.isSome)).length then ["evicted"] else [])
   ++ (if n > 0 then ["nontrivial"] else [])
+
+/-- first failing join of a multi-join observation: `(index, clause)` -/
+def firstBadJ : Nat → List JoinDef → List JOp → List (List (List (Nat × Nat))) → String
+  | i, [], ms, obs =>
+    if obs.length != ms.length then "calls" else if obs.all (·.isEmpty) then "multiOk" else s!"extra-batch@0#j{i}"
+  | i, j :: js, ms, obs =>
+    match heads obs with
+    | none => s!"missing-batch@0#j{i}"
+    | some col =>
+      let rt := routeJ j.l j.r
+      if mgrOkG rt j.P ms col then firstBadJ (i + 1) js ms (tails obs)
+      else if !unroutedSilentG rt ms col then s!"unrouted-call-emitted@0#j{i}"
+      else s!"{firstBad j.P (ms.filterMap rt) (routedObsG rt ms col)}#j{i}"
+
+def colOf (i : Nat) (obs : List (List (List (Nat × Nat)))) : List (List (Nat × Nat)) :=
+  obs.map (fun row => (row[i]?).getD [])
+
+def jTags (c : JCase) (obs : List (List (List (Nat × Nat)))) : List String :=
+  let n := (obs.map List.flatten).flatten.length
+  let idx := List.range c.js.length
+  let emitting := (idx.filter (fun i => !(colOf i obs).flatten.isEmpty)).length
+  let mixed := c.js.any (fun j => c.js.any (fun k => j.l == k.r))
+  let sameRole := c.js.any (fun j => (c.js.filter (fun k => k.l == j.l)).length ≥ 2 ||
+                                     (c.js.filter (fun k => k.r == j.r)).length ≥ 2)
+  let consumed := c.js.flatMap (fun j => [j.l, j.r])
+  let unrouted := c.ms.any (fun m => match m with
+    | .ev s _ => !consumed.contains s
+    | .wm s _ => !consumed.contains s)
+  let evicting := c.js.any (fun j => !noPartnerEvicted j.P (joinOps j c.ms))
+  let hasWm := c.ms.any (fun m => match m with | .wm _ _ => true | _ => false)
+  ["multi", s!"joins{c.js.length}", s!"emitting-joins{emitting}"]
+  ++ [if n = 0 then "pairs0" else if n ≤ 2 then "pairs1-2" else "pairs3+"]
+  ++ (if mixed then ["stream-in-both-roles"] else [])
+  ++ (if sameRole then ["stream-shared-same-role"] else [])
+  ++ (if unrouted then ["unrouted"] else [])
+  ++ (if hasWm then ["wm"] else [])
+  ++ (if evicting then ["partner-evicted"] else ["safe"])
+  ++ (c.conds.eraseDups.map (fun k => s!"cond{k}"))
+  ++ (if n > 0 then ["nontrivial"] else [])
+
+def oracleJ (cs o : String) : String :=
+  match parseJCase cs, parseJObs o.trimAscii.toString with
+  | some c, some obs =>
+    if !c.js.all (fun j => decide (WF (joinOps j c.ms))) then "bad-case-ids"
+    else if multiOk c.js c.ms obs then joinSp ("ok" :: jTags c obs)
+    else s!"fail {firstBadJ 0 c.js c.ms obs}"
+  | _, _ => "bad-input"
 
 def oracleLine (line : String) : String :=
   match line.splitOn " | " with
   | [cs, o] =>
+    if isJ cs then oracleJ cs o else
     match parseCase cs, parseObs o.trimAscii.toString with
     | some c, some obs =>
       let ms := c.mops
